@@ -335,7 +335,7 @@ pub fn prop() -> Prop<C14Case> {
             "only calls that go through libc's open/write/pwrite/truncate/rename/unlink/link/fallocate/mmap wrappers are observed (raw syscalls would be missed; the shadow-copy comparison still catches their effects)",
         ],
         needs_shim: true,
-        budget: |t| t.pick(16000, 250000),
+        budget: |t| t.pick(80000, 250000),
         shards: |_| 16,
         strategy,
         exec,
